@@ -282,7 +282,10 @@ func allCodecs() []*codec {
 			enc: func(v any) ([]byte, error) {
 				w := io.NewBufBinWriter()
 				v.(*block.Block).EncodeTrimmed(w.BinWriter)
-				return w.Bytes(), w.Err
+				if w.Err != nil {
+					return nil, w.Err
+				}
+				return w.Bytes(), nil
 			},
 			dec: func(b []byte) (any, error) {
 				r := io.NewBinReaderFromBuf(b)
@@ -442,7 +445,7 @@ func allCodecs() []*codec {
 	nodeBoxDiff := func(a, b any) string { return nodeDiff("", a.(*nodeBox).n, b.(*nodeBox).n, true) }
 	add(&codec{
 		name: "mptnode.bin", typ: "mpt-node", entry: "mpt.NodeObject.DecodeBinary", gen: genNodeAny, weight: 4,
-		enc: func(v any) ([]byte, error) { return encodeErr(mpt.NodeObject{Node: v.(*nodeBox).n}) },
+		enc: func(v any) ([]byte, error) { return encodeErr(&mpt.NodeObject{Node: v.(*nodeBox).n}) },
 		dec: func(b []byte) (any, error) {
 			var no mpt.NodeObject
 			if err := decodeAll(&no, b); err != nil {
@@ -540,7 +543,7 @@ func allCodecs() []*codec {
 		}
 	}
 	add(&codec{
-		name: "item.bin", typ: "stack-item", entry: "stackitem.Deserialize", gen: genItemAny(itemOpts{}), weight: 8, maxIn: stackitem.MaxSize,
+		name: "item.bin", typ: "stack-item", entry: "stackitem.Deserialize", gen: genItemAny(itemOpts{bin: true}), weight: 8, maxIn: stackitem.MaxSize,
 		enc: func(v any) ([]byte, error) { return stackitem.Serialize(v.(*itemBox).it) },
 		dec: func(b []byte) (any, error) {
 			it, err := stackitem.Deserialize(b)
@@ -578,15 +581,35 @@ func allCodecs() []*codec {
 	})
 
 	// ---- execution results ----
-	genAERAny := func(r *rng.R) (any, string) {
-		var sh []string
-		a := genAER(r, &sh)
-		return a, shapeSig("aer", sh)
+	genAERAny := func(invocations bool) func(r *rng.R) (any, string) {
+		return func(r *rng.R) (any, string) {
+			var sh []string
+			a := genAER(r, invocations, &sh)
+			return a, shapeSig("aer", sh)
+		}
 	}
-	c = binCodec[state.AppExecResult]("aer.bin", "exec-result", "AppExecResult.DecodeBinary", genAERAny, nil, nil)
+	c = binCodec[state.AppExecResult]("aer.bin", "exec-result", "AppExecResult.DecodeBinary", genAERAny(true), nil, nil)
 	c.weight = 6
+	c.enc = func(v any) ([]byte, error) {
+		// EncodeBinary records "has invocations" in a spare bit of the VMState
+		// field of the value it is given; encode a shallow copy so that the
+		// value under comparison stays what was decoded / constructed.
+		cp := *v.(*state.AppExecResult)
+		return encodeErr(&cp)
+	}
 	add(c)
-	add(jsonCodec[state.AppExecResult]("aer.json", "exec-result", genAERAny, nil, nil))
+	add(jsonCodec[state.AppExecResult]("aer.json", "exec-result", genAERAny(false), nil, nil))
+	// contract invocations have their own JSON codec (laws only)
+	c = jsonCodec[state.ContractInvocation]("invocation.json", "contract-invocation", func(r *rng.R) (any, string) {
+		var args []byte
+		if r.Chance(3, 4) {
+			args, _ = stackitem.Serialize(genArrayItem(r, itemOpts{maxBytes: 40, plain: true}))
+		}
+		return state.NewContractInvocation(u160(r), ident(r, 20), args, bu32(r)), fmt.Sprint("invocation:args", args != nil)
+	}, nil, nil)
+	c.weight = 0
+	c.diff = invocationDiff
+	add(c)
 	return cs
 }
 
@@ -718,4 +741,28 @@ func consPost(cb *consBox, sr bool, canon []byte) string {
 		return "re-encoded message decodes to a different message: " + d
 	}
 	return ""
+}
+
+// invocationDiff compares contract invocations by content: the arguments are
+// held as serialized bytes on the node side and as an item on the client side.
+func invocationDiff(a, b any) string {
+	x, y := a.(*state.ContractInvocation), b.(*state.ContractInvocation)
+	if x.Hash != y.Hash || x.Method != y.Method || x.ArgumentsCount != y.ArgumentsCount || x.Truncated != y.Truncated {
+		return "hash/method/count/truncated"
+	}
+	args := func(ci *state.ContractInvocation) stackitem.Item {
+		if ci.Arguments != nil {
+			return ci.Arguments
+		}
+		raw := clean(reflect.ValueOf(ci).Elem().FieldByName("argumentsBytes")).Bytes()
+		if raw == nil {
+			return nil
+		}
+		it, err := stackitem.Deserialize(raw)
+		if err != nil {
+			return nil
+		}
+		return it
+	}
+	return itemDiff(".Arguments", args(x), args(y), 0)
 }
